@@ -441,4 +441,9 @@ def check(ctx, rep):
     rule_framework_dispatch_keeps_updates(ctx, rep, "R-DISPATCH-KEEPS-UPDATES")
     rule_gate_unit(ctx, rep)
     rule_multipass_lines(ctx, rep)
+    from .c06 import rule_rule_keyed
+
+    # 'permitted lines are still fixed': the line patterns are applied to the construct that is edited (the transformers' gates), never to the
+    # findings before the transformer sees them -- a finding need not sit on the line of the construct it leads to
+    rule_rule_keyed(ctx, rep)
     rep.not_covered += ["fnmatch semantics of `path:line` spellings", "multi-line constructs (match_line requires start == end == line)"]
